@@ -18,8 +18,9 @@ import (
 func init() { hk.Register("c19", Run) }
 
 type Spec struct {
-	Start  int   `json:"start"`  // the spec is "b<start>" + suffix
+	Start  int   `json:"start"`  // the spec is "b<start>" + suffix, or "<hash of commit start>" + suffix
 	Suffix []int `json:"suffix"` // bytes
+	Hash   bool  `json:"hash"`   // name the start commit by its 32-character hash instead of its branch
 }
 
 type Case struct {
@@ -27,6 +28,10 @@ type Case struct {
 	Salt  int     `json:"salt"`
 	Pairs [][]int `json:"pairs"`
 	Specs []Spec  `json:"specs"`
+	// SQL: build the history through the SQL surface (dolt_commit / dolt_merge / dolt_branch on an
+	// in-process engine) and additionally resolve merge bases with dolt_merge_base() and specs with
+	// dolt_hashof(), dolt_log(rev) and AS OF. Shapes: one root, at most two distinct parents.
+	SQL bool `json:"sql"`
 }
 
 type Obs struct {
@@ -34,9 +39,10 @@ type Obs struct {
 	Heights []int   `json:"heights"`
 	Mb      []int   `json:"mb"`    // datas.FindCommonAncestor per pair: index, -1 none, -2 error
 	Mbp     []int   `json:"mbp"`   // findCommonAncestorUsingParentsList per pair
-	Mbd     []int   `json:"mbd"`   // doltdb.GetCommitAncestor per pair
+	Mbd     []int   `json:"mbd"`   // doltdb.GetCommitAncestor per pair; in SQL mode: select dolt_merge_base('b<a>','b<b>')
 	Ff      []int   `json:"ff"`    // DoltDB.CanFastForward(branch of first, second): see ffCode
 	Specs   [][]int `json:"specs"` // [code, index]: 0 ok, 1 rejected by NewCommitSpec, 2 ErrInvalidAncestorSpec, 3 other error
+	Bases   [][]int  `json:"bases"` // bytes of the base name used for each spec (branch name or commit hash)
 	Errs    []string `json:"errs,omitempty"`
 }
 
@@ -62,14 +68,24 @@ func Run(raw json.RawMessage) (any, error) {
 		return nil, err
 	}
 	ctx := context.Background()
-	g, err := c18.Build(ctx, c.H, c.Salt, nil)
+	var g *c18.Graph
+	var sess *sqlSession
+	var err error
+	if c.SQL {
+		g, sess, err = buildSQL(ctx, c.H, c.Salt)
+		if sess != nil {
+			defer sess.Close()
+		}
+	} else {
+		g, err = c18.Build(ctx, c.H, c.Salt, nil)
+	}
 	if err != nil {
 		return nil, err
 	}
 	n := len(c.H)
 	dcs := make([]*datas.Commit, n)
 	cms := make([]*doltdb.Commit, n)
-	o := Obs{Rank: g.Rank(), Heights: []int{}, Mb: []int{}, Mbp: []int{}, Mbd: []int{}, Ff: []int{}, Specs: [][]int{}}
+	o := Obs{Rank: g.Rank(), Heights: []int{}, Mb: []int{}, Mbp: []int{}, Mbd: []int{}, Ff: []int{}, Specs: [][]int{}, Bases: [][]int{}}
 	for i := 0; i < n; i++ {
 		dcs[i], err = g.Load(ctx, i)
 		if err != nil {
@@ -99,7 +115,9 @@ func Run(raw json.RawMessage) (any, error) {
 		o.Mb = append(o.Mb, idxOf(datas.FindCommonAncestor(ctx, dcs[a], dcs[b], g.VRW, g.VRW, g.NS, g.NS)))
 		o.Mbp = append(o.Mbp, idxOf(datas.VerifFindCommonAncestorUsingParentsList(ctx, dcs[a], dcs[b], g.VRW, g.VRW, g.NS, g.NS)))
 		oc, err := doltdb.GetCommitAncestor(ctx, cms[a], cms[b])
-		if errors.Is(err, doltdb.ErrNoCommonAncestor) {
+		if sess != nil {
+			o.Mbd = append(o.Mbd, sess.MergeBase(a, b))
+		} else if errors.Is(err, doltdb.ErrNoCommonAncestor) {
 			o.Mbd = append(o.Mbd, -1)
 		} else if err != nil {
 			o.Mbd = append(o.Mbd, idxOf(hash.Hash{}, false, err))
@@ -114,7 +132,31 @@ func Run(raw json.RawMessage) (any, error) {
 		for i, x := range s.Suffix {
 			bs[i] = byte(x)
 		}
-		str := c18.BranchName(s.Start) + string(bs)
+		base := c18.BranchName(s.Start)
+		if s.Hash {
+			base = g.Addrs[s.Start].String()
+		}
+		bb := make([]int, len(base))
+		for i := 0; i < len(base); i++ {
+			bb[i] = int(base[i])
+		}
+		o.Bases = append(o.Bases, bb)
+		str := base + string(bs)
+		if sess != nil {
+			// SQL mode: the observation is what dolt_hashof / dolt_log(rev) / AS OF agree on. Through SQL
+			// a rejected spec and a walk that leaves the graph carry the same error text, so code 1 is
+			// refined to 2 with the doltdb-level error when (and only when) SQL reported an error.
+			code, idx := sess.ResolveSpec(str)
+			if code == 1 {
+				if cs, err := doltdb.NewCommitSpec(str); err == nil {
+					if _, err := g.DDB.Resolve(ctx, cs, nil); errors.Is(err, doltdb.ErrInvalidAncestorSpec) {
+						code = 2
+					}
+				}
+			}
+			o.Specs = append(o.Specs, []int{code, idx})
+			continue
+		}
 		cs, err := doltdb.NewCommitSpec(str)
 		if err != nil {
 			o.Specs = append(o.Specs, []int{1, 0})
